@@ -15,7 +15,7 @@ import export
 import gen
 import opkit
 from cases import CaseSet, rng_for, pick_semiring, close
-from props.C02 import build, pipeline_operands, tensor_leaves
+from props.C02 import build, pipeline_operands, tensor_leaves, prob_leaves
 
 PID = "C19"
 
@@ -41,8 +41,14 @@ def one_case(rep, cs, seed, i):
         ccA = ctxA.compile(sc)
         all_ccA = [ctxA.get_compiled_circuit(c) for c in ops]
         # train-like perturbation of every learnable tensor of instance A
+        stateA = ctxA._compiler.state
+        keep = set()
+        frozen = prob_leaves(ops)
+        for p_ in tensor_leaves(ops):
+            if id(p_) in frozen and stateA.has_compiled_parameter(p_):
+                keep.add(stateA.retrieve_compiled_parameter(p_)[0]._ptensor.data_ptr())
         with torch.no_grad():
-            seen = set()
+            seen = set(keep)
             for cc in all_ccA:
                 for p in cc.parameters():
                     if p.requires_grad and p.data_ptr() not in seen:
